@@ -405,6 +405,35 @@ def r12_linkage_set_at_creation(run, F):
     run.ob("R12-LINKAGE-SET-AT-CREATION", "scan", n >= 10, "src/alpha/generator.rs", "%d linkage / calling convention settings examined (10 counted)" % n)
 
 
+def r13_both_modules_verified(run, F):
+    """`Generator::verify` is the only verification the *linked* program ever gets: `add_module` links the finished module into
+    `combined_module`, and all modules share one LLVMContext, so a later module can change what an earlier module's IR means (a
+    named struct type whose body is set again).  The per-module files stay valid; the linked IR does not.  Decided: on the paths
+    of `verify`, LLVMVerifyModule is applied to the current module (field `module`) and to the combined module (field
+    `combined_module`), both with the abort action (a returned status is discarded, see C02)."""
+    vb = F.body(GEN + "::verify")
+    run.require("hir" in vb, "Generator::verify has no HIR")
+    from rules import origins
+    calls = [n for n in walk(vb["hir"]) if n.get("k") == "Call" and (hirq.callee(n) or "").endswith("LLVMVerifyModule")]
+    seen = {}
+    for c in calls:
+        o = origins.origins(vb["hir"], c["a"][0], vb.get("params", ()))
+        for item in o:
+            if len(item) >= 2 and item[0] == "field" and item[1] in ("module", "combined_module"):
+                seen.setdefault(item[1], c)
+    for field, what in (("module", "the current module"), ("combined_module", "the linked program (every module added so far)")):
+        run.ob("R13-BOTH-MODULES-VERIFIED", field, field in seen, F.where(vb, seen.get(field)) if field in seen else F.where(vb),
+               "Generator::verify applies LLVMVerifyModule to %s (self.%s); found %d LLVMVerifyModule call(s) on %s" % (what, field, len(calls), sorted(seen)))
+    acts = set()
+    for c in calls:
+        for n in walk(c["a"][1]):
+            if n.get("k") == "Path":
+                acts.add(str(n.get("res") or n.get("path") or "").split("::")[-1])
+    run.ob("R13-BOTH-MODULES-VERIFIED", "abort action", bool(calls) and acts == {"LLVMAbortProcessAction"}, F.where(vb),
+           "every LLVMVerifyModule call uses LLVMAbortProcessAction, the only action whose failure cannot be ignored by discarding the status (found %s)" % sorted(acts))
+    run.floor("R13-BOTH-MODULES-VERIFIED", 3, "obligations on Generator::verify")
+
+
 def check(run):
     F = run.facts("B")
     r9_builtin_types(run, F)
@@ -417,6 +446,7 @@ def check(run):
     r8_call_convention(run, F)
     r11_branch_targets(run, F)
     r12_linkage_set_at_creation(run, F)
+    r13_both_modules_verified(run, F)
     # aggregate constants are not inspected by the in-process verifier: an insertvalue chain of constants with a wrong
     # index folds into a constant of the wrong shape that only the textual IR reader rejects (shared with C01.R7)
     from props import c01
